@@ -189,6 +189,12 @@ class StandardRequestHandler(ControlRequestHandler):
                     handle_new_setup()
 
                 with m.State('CLEAR_FEATURE'):
+
+                    # CLEAR_FEATURE has no data stage; if the host asks for one, that's a request error.
+                    with m.If(interface.data_requested):
+                        m.d.comb += handshake_generator.stall.eq(1)
+                        m.next = 'IDLE'
+
                     # Provide an response to the STATUS stage.
                     with m.If(interface.status_requested):
 
